@@ -580,8 +580,7 @@ def oracle(ctx, deep=False):
         srt, ptr = sp.get_elements_by_color()
         nz0 = _zero_mult_count(mult, sup)
         res.case("oracle|" + key, nontrivial=(nz0 > 0 or len(ptr) - 1 >= 3))
-        flags = "+".join(k for k in ("include_boundary_dofs=True", "truncate_at_segment_edge=False") if k in item["opts"])
-        tag = f"{item['kind']}{('-' + flags) if flags else ''}"
+        tag = item["kind"]
         # coloured exactly the support elements, launches partition the support
         supel = np.flatnonzero(sup).tolist()
         if sorted(np.asarray(srt).astype(int).tolist()) != supel or np.any((cm >= 0) != sup.astype(bool)):
@@ -609,6 +608,7 @@ def oracle(ctx, deep=False):
     res.stats["oracle_spaces"] = len(spaces)
     res.merge(_recorded_oracle(ctx, spaces, deep))
     res.merge(_thread_matrix(ctx, deep))
+    _FOUND["n"] += len(res.counterexamples)
     return res
 
 
